@@ -247,6 +247,7 @@ func worker(o *common.Opts) {
 			in := newInst()
 			// every fifth input meets the preset keys dead but still stored (deadline passed, timer not fired yet)
 			dead := mine%5 == 0
+			withDeadlines := false
 			if dead {
 				in.ForceDead(presetKeys...)
 				out.DeadState++
@@ -261,6 +262,7 @@ func worker(o *common.Opts) {
 					in.Exec(respc.Cmd("EXPIRE", k, ttl), nil)
 				}
 				out.DeadlineState++
+				withDeadlines = true
 			}
 			var res inproc.Result
 			done := make(chan struct{})
@@ -280,6 +282,13 @@ func worker(o *common.Opts) {
 						if r := in.Exec(respc.Cmd(pr...), nil); r.Panic != "" && probePanic == "" {
 							probePanic = strings.Join(pr, " ") + ": " + r.Panic
 						}
+					}
+				}
+				if withDeadlines && res.Panic == "" {
+					// every deadline set above has a goroutine waiting for it: deleting the keys ends them (one
+					// instance per input - they would pile up by the million otherwise)
+					if r := in.Exec(respc.Cmd(append([]string{"DEL"}, presetKeys[1:]...)...), nil); r.Panic != "" && probePanic == "" {
+						probePanic = "DEL of the preset keys: " + r.Panic
 					}
 				}
 				close(done)
